@@ -29,6 +29,9 @@ ASSUMPTIONS = [
     "an element that is itself a StopIter instance ends a loop early and cuts adapter chains (sentinel_cuts): documented behaviour of the protocol",
 ]
 
+RANGE_LENGTHS = [2 ** k + d for k in (8, 15, 16, 31, 32, 33, 40, 52) for d in (-1, 0, 1)]
+RANGE_BEGINS = [0, 1, -1, 7, -2 ** 31, 2 ** 31 - 1, -2 ** 32, 2 ** 32, -(2 ** 52), 2 ** 40]
+
 COUNTER = ('#[derive(Iter)] class Counter { #[constructor] fn new(self, max) { self.max = max; self.pos = 0; } fn iter(self) { self.pos = 0; return self; }\n'
            ' fn next(self) { if self.pos == self.max { return StopIter.new(); } self.pos += 1; return self.pos; } }\n')
 BAG = '#[derive(Iter)] class Bag { #[constructor] fn new(self, items) { self.items = items; } fn iter(self) { return self.items.iter(); } }\n'
@@ -194,6 +197,15 @@ def correspondence(ctx, model_ok=True):
             b = r.below(13) - 6
             e = r.below(13) - 6
             n = r.below(10)
+            if r.chance(1, 5):
+                # LONG ranges (a range is lazy: its length is not a cost): lengths around the widths a counter could have, from begins on
+                # both sides of zero, ascending and descending; the first few elements and the fact that there are that many
+                ln = RANGE_LENGTHS[r.below(len(RANGE_LENGTHS))]
+                b = RANGE_BEGINS[r.below(len(RANGE_BEGINS))]
+                e = b + ln if r.chance(1, 2) else b - ln
+                if abs(e) > 2 ** 53:
+                    e = b - ln if e > 0 else b + ln
+                n = 1 + r.below(5)
             reqs.append("range %d %d %d" % (b, e, n))
             src = "var it = ((%d)..(%d)).iter();\n" % (b, e) + "print(it.next());\n" * n
         elif k == 1:
